@@ -372,6 +372,8 @@ type AttemptPlan struct {
 	HandlerBlockMs int  // if > 0 the blocked handler resumes by itself after this many milliseconds
 	ReleaseDelayMs int  // the blocked handler keeps running this long AFTER the stop cause (cancel) before it returns
 	Scribble     bool   // handler overwrites every delivered byte slice after snapshotting
+	ScribbleLate bool   // the same, but only after the last attempt of the scenario has ended (all transactions are overwritten one after
+	// the other, in delivery order, before everything is re-read): values shared between two kept transactions show
 	Dead         bool   // connect to a dead address (no listener)
 	CancelAfterReturn bool // the caller cancels its context after Stream returned, before calling Error()
 	LogDelayMs        int  // the log sink takes this long per Errorf/Infof call (slow sink: shifts the reader's timing)
@@ -391,7 +393,7 @@ func defaultAttempt() AttemptPlan {
 func (a AttemptPlan) J() M {
 	m := M{"pacing": a.Pacing, "end": a.End, "connfault": orNone(a.ConnFault), "handlerErrAt": a.HandlerErrAt,
 		"mapperFault": orNone(a.MapperFault), "handlerErrKind": orNone(a.HandlerErrKind), "cancelAtTx": a.CancelAtTx, "cancelAtPkt": a.CancelAtPkt, "stallAfter": a.StallAfter, "detain": a.Detain,
-		"handlerBlock": a.HandlerBlock, "releaseDelayMs": a.ReleaseDelayMs, "scribble": a.Scribble, "dead": a.Dead, "cancelAfterReturn": a.CancelAfterReturn,
+		"handlerBlock": a.HandlerBlock, "releaseDelayMs": a.ReleaseDelayMs, "scribble": a.Scribble, "scribbleLate": a.ScribbleLate, "dead": a.Dead, "cancelAfterReturn": a.CancelAfterReturn,
 		"logDelayMs": a.LogDelayMs, "skipError": a.SkipError, "hookTrace": a.HookTrace, "hookFuzz": a.HookFuzz != 0, "scripted": a.Script != nil, "leakFirst": a.LeakFirst, "mapperCancels": a.MapperCancels, "deadline": a.Deadline, "script": scriptJ(a.Script)}
 	if a.Fault != nil {
 		m["fault"] = M{"kind": a.Fault.Kind, "at": a.Fault.At, "code": int(a.Fault.Code), "msg": B(a.Fault.Msg)}
@@ -559,6 +561,7 @@ type runState struct {
 	abandoned bool // a Stream call never returned: the streamer object cannot be used any more
 	// where the harness believes the streamer stands (only used to describe injected faults; set from the scenario start)
 	streamerPosGuess Pos
+	late             []int  // indices (in kept) of the transactions to be overwritten after the last attempt (ScribbleLate)
 	carry            *Sched // scheduler handed from a scripted attempt to the next one (AttemptPlan.Detain)
 }
 
@@ -583,6 +586,11 @@ func errJ(err error) M {
 // the bytes they are expected to hold (spec: ScribbledEvs).
 func scribbleTx(t *gobinlog.Transaction, pat byte) {
 	for j, e := range t.Events {
+		if c := e.Query.Charset; c != nil {
+			// the session charset of a statement is delivered data too (a struct the handler may rewrite)
+			p := int32(byte(int(pat) + 7*j))
+			c.Client, c.Conn, c.Server = p, p+1, p+2
+		}
 		for side, rows := range [][]*gobinlog.RowData{e.RowValues, e.RowIdentifies} {
 			for r, row := range rows {
 				for c, col := range row.Columns {
@@ -753,8 +761,11 @@ func (rs *runState) runAttempt(att int, a AttemptPlan, dsnOverride string) {
 		pj["sent"] = sentSoFar
 		pj["gk"] = len(rs.kept)
 		pat := -1
-		if a.Scribble {
+		if a.Scribble || a.ScribbleLate {
 			pat = 0x80 + len(rs.kept)%100
+		}
+		if a.ScribbleLate {
+			rs.late = append(rs.late, len(rs.kept))
 		}
 		pj["pat"] = pat
 		if sc.JSONStates {
@@ -1138,6 +1149,9 @@ func RunStreamScenario(rec *Recorder, sc *StreamScenario) {
 		rs.carry.freeRun()
 		setSched(nil)
 		rs.carry = nil
+	}
+	for _, k := range rs.late {
+		scribbleTx(rs.kept[k], byte(0x80+k%100))
 	}
 	// re-read every delivered transaction after all stream activity ended (C08)
 	for k, t := range rs.kept {
